@@ -818,8 +818,21 @@ class Rec:
         self.pairs = None
         self.delivered = None
         self.oracle_limit = False
+        self.sampler_calls = 0
         self.error = None
         self.value_again = None
+
+
+def state_gates_of(spec, objs):
+    """the preparation circuit the state object itself reports (a computational-basis state folds Pauli gates into its bits, which is
+    another property's subject); the VALUE is judged against the harness' own circuit `circ`"""
+    gates = list(objs["circ"].gates)
+    if (spec.get("route") or "") != "general_param":
+        try:
+            gates = list(objs["state"].circuit.gates)
+        except Exception:  # noqa: BLE001
+            pass
+    return gates
 
 
 def mc_gates(mc):
@@ -975,7 +988,9 @@ def build_and_run(spec, route="direct"):
 
     def sampler(pairs):
         pairs = list(pairs)
-        rec.pairs = [(list(c.gates), s, c.qubit_count) for c, s in pairs]
+        # accumulated over calls: an implementation may submit the requests in several batches
+        rec.pairs = (rec.pairs or []) + [(list(c.gates), s, c.qubit_count) for c, s in pairs]
+        rec.sampler_calls += 1
         out = []
         for c, s in pairs:
             if sk == "ideal" and spec.get("wide"):
@@ -999,7 +1014,7 @@ def build_and_run(spec, route="direct"):
                 out.append({k: srng.choice([0, 1, 2, 3, 7, 0.5]) for k in keys})
         if sk == "short" and out:
             out = out[: srng.randint(0, len(out))]
-        rec.delivered = out
+        rec.delivered = (rec.delivered or []) + list(out)
         sret = spec.get("sret", "list")
         return tuple(out) if sret == "tuple" else (d for d in out) if sret == "gen" else out
 
@@ -1182,6 +1197,22 @@ def analyse(ctx: Ctx, spec, mode, reqs1, pend):
             bad = f"requested {sum(shots)} shots with a budget of {total}"
         if bad:
             ctx.witness("sampling_estimate.budget", bad, spec, {"requested": shots})
+    # --- … and completeness: whatever the batching, the sampler is asked exactly once for every group that received shots, with that
+    #     group's shots (otherwise some group is not "evaluated from the counts of its own measurement circuit")
+    if rec.pairs is not None and info.get("real_alloc_by_group") is not None and rec.alloc_exc is None:
+        want_shots = sorted(x for x in info["real_alloc_by_group"] if isinstance(x, numbers.Integral) and x > 0)
+        got_shots = sorted(x for _, x, _ in rec.pairs if isinstance(x, numbers.Integral))
+        if want_shots != got_shots:
+            ctx.witness("sampling_estimate.requests", f"{len(want_shots)} groups received shots ({sum(want_shots)} in total) but the sampler was asked "
+                        f"for {len(rec.pairs)} circuits ({sum(got_shots)} shots) in {rec.sampler_calls} call(s)", spec,
+                        {"groups_with_shots": len(want_shots), "requested": len(rec.pairs)})
+        else:
+            # content: the i-th group's circuit is the state's circuit followed by the group's measurement circuit (multiset comparison)
+            sg = state_gates_of(spec, objs)
+            exp = sorted((repr(sg + mc_gates(m.measurement_circuit)), x) for m, x in zip(filt, info["real_alloc_by_group"]) if x > 0)
+            got = sorted((repr(list(g)), x) for g, x, _ in rec.pairs)
+            if exp != got:
+                ctx.disagree("pairs:content", spec, f"{len(got)} requests", "state circuit + measurement circuit of each group with shots, with its shots")
     # --- the property on the real behaviour: ideal sampling ⇒ exact value
     if spec["sampler"] == "ideal" and info.get("real_alloc_by_group") is not None and rec.pairs is not None:
         shots_g = info["real_alloc_by_group"]
@@ -1439,6 +1470,91 @@ def k_estimator(ctx: Ctx, mode: str, n_cases: int, with_model: bool = True):
                 key = KEY_F2 if (mode == "all" and info.get("zero_before_pos")) else "sampling_estimate.value"
                 ctx.witness(key, "ideal sampling but the estimate is not the demanded value", info["spec"],
                             {"real": str(info["value"]), "demanded": str(info["want"])})
+
+
+# ---------------------------------------------------------------------------
+# K2b: SIZE thresholds — the number of groups that receive shots around 1, 2, 64, 100, 128, 150, 200, 256, 1000+
+# ---------------------------------------------------------------------------
+SIZE_BANDS = [[1, 2, 3], [63, 64, 65], [99, 100, 101], [127, 128, 129], [150, 170], [199, 200, 201], [255, 256, 257], [300, 511, 1000, 1023]]
+
+
+def gen_size_case(rng, size):
+    """an operator with `size` distinct non-identity Pauli terms measured one group per term (the library's individual measurement or a
+    hand-made factory), every group receiving at least one shot, exact-frequency sampler, any entry point / argument form"""
+    need = 1
+    while 4**need - 1 < size:
+        need += 1
+    n = rng.choice([q for q in (4, 5, 6) if q >= need] or [need])
+    if size > 300:
+        n = max(need, 5)
+    codes = rng.sample(range(1, 4**n), size)
+    terms = []
+    for code in codes:
+        q, pl = 0, []
+        while code:
+            if code % 4:
+                pl.append([q, code % 4])
+            code //= 4
+            q += 1
+        terms.append([pl, [rng.choice([-1, 1]) * rng.randint(4, 8) / 4, 0.0]])
+    if rng.random() < 0.5:
+        terms.insert(rng.randint(0, len(terms)), [[], [rng.randint(-8, 8) / 4, 0.0]])
+    fk = rng.choice(["individual", "list"])
+    fac = {"kind": fk, "ret": rng.choice(["list", "tuple", "gen"]), "gform": rng.choice(GFORMS)}
+    if fk == "list":
+        groups = [[t[0]] for t in terms if t[0]]
+        rng.shuffle(groups)
+        if any(not t[0] for t in terms) and rng.random() < 0.7:
+            groups.insert(rng.randint(0, len(groups)), [[]])
+        fac.update({"groups": groups, "own_recs": rng.random() < 0.5, "flip": rng.randrange(n) if rng.random() < 0.3 else None,
+                    "mcform": rng.choice(["tuple", "list", "circuit"])})
+    ak = rng.choice(["equi", "prop", "fixed"]) if fk == "list" else rng.choice(["equi", "prop"])
+    al = {"kind": ak, "unit": rng.choice([1, 1, 2]), "seed": 1}
+    if ak == "equi":
+        total = size * al["unit"] * rng.randint(1, 3) + rng.randint(0, al["unit"] * size - 1) % max(size, 1)
+    elif ak == "prop":
+        total = 40 * size * al["unit"]  # coefficients within a factor 2: every ratio ≥ 1/(2·size)
+    else:
+        al["shots"] = [rng.choice([1, 1, 2, 3]) for _ in range(size)]
+        al["ret"] = rng.choice(["frozenset", "list", "tuple"])
+        al["unit"] = 1
+        total = sum(al["shots"])
+    spec = {"n": n, "state": gen_state(rng, n, True), "dyadic": True, "op": terms, "factory": fac, "alloc": al, "total": total,
+            "sampler": "ideal", "sseed": 0, "bare": False, "big": size,
+            "route": rng.choice(["direct", "default", "keyword", "estimator", "concurrent", "cc_estimator", "general", "general_seq", "manual"]),
+            "sform": rng.choice(["general", "cb_gates"]), "sret": rng.choice(["list", "tuple", "gen"]), "prepret": rng.choice(["asis", "gen"]),
+            "intcoef": False, "err_first": False}
+    if spec["sform"] != "general":
+        spec["bits"] = rng.getrandbits(n)
+    return spec
+
+
+def run_size_case(ctx: Ctx, spec, mode="positive"):
+    """judged by the oracle alone (the demanded value from the state vector, the requests against the allocation); the Lean model's
+    reconstructor tables would have size·2^n entries"""
+    reqs1, pend = [], []
+    info = analyse(ctx, spec, mode, reqs1, pend)
+    rec = info["rec"]
+    n_shot = len([x for x in info.get("real_alloc_by_group") or [] if x > 0])
+    ctx.case(("size", canon_spec(spec)), nontrivial=info["status"] == "ok")
+    ctx.count("size_groups_with_shots", str(n_shot))
+    ctx.count("size_sampler_calls", str(rec.sampler_calls))
+    if n_shot != spec["big"]:
+        ctx.count("size_cases_not_all_groups_sampled")
+    if info.get("oracle_mismatch"):
+        ctx.witness("sampling_estimate.value", f"ideal sampling, {n_shot} groups received shots: the estimate is not the demanded value", spec,
+                    {"real": str(info["value"]), "demanded": str(info["want"]), "groups_with_shots": n_shot, "requested_circuits": len(rec.pairs or [])})
+
+
+def k_sizes(ctx: Ctx):
+    rng = ctx.rng
+    if ctx.quick():
+        sizes = [x for b in SIZE_BANDS[:7] for x in rng.sample(b, 2)] + [rng.choice([300, 511]), rng.choice([1000, 1023])]
+    else:
+        sizes = [x for b in SIZE_BANDS for x in b] + [rng.randint(101, 199) for _ in range(4)] + [rng.randint(201, 999) for _ in range(4)] + [1500, 2047, 4095]
+    ctx.extra["size_thresholds"] = sorted(sizes)
+    for size in sizes:
+        run_size_case(ctx, gen_size_case(rng, size))
 
 
 def k_glue(ctx: Ctx, n_cases: int):
@@ -2099,6 +2215,8 @@ def run(ctx: Ctx, replay=None) -> int:
                 run_concurrent_case(ctx, spec)
             elif isinstance(spec, dict) and spec.get("kernel") == "history":
                 run_history_case(ctx, spec)
+            elif isinstance(spec, dict) and spec.get("big"):
+                run_size_case(ctx, spec, mode)
             elif isinstance(spec, dict) and "state" in spec:
                 analyse(ctx, spec, mode, reqs1, pend)
             elif isinstance(spec, dict) and "kind" in spec:
@@ -2117,6 +2235,8 @@ def run(ctx: Ctx, replay=None) -> int:
         k_allocators(ctx)
         k_pauli(ctx, ctx.n(500, 10000))
         k_estimator(ctx, mode, ctx.n(2500, 25000))
+        with ctx.timed("sizes"):
+            k_sizes(ctx)
         k_glue(ctx, ctx.n(40, 1000))
         k_pauli_sum(ctx, ctx.n(800, 8000))
         k_concurrent(ctx, ctx.n(300, 3000))
